@@ -174,7 +174,7 @@ func DefaultRouter(spec *loads.Document, api RoutableAPI, opts ...DefaultRouterO
 			for path, operation := range paths {
 				fp := fpath.Join(spec.BasePath(), path)
 				builder.debugLogf("adding route %s %s %q", method, fp, operation.ID)
-				builder.AddRoute(method, fp, operation)
+				builder.addRoute(method, fp, path, operation)
 			}
 		}
 	}
@@ -454,18 +454,31 @@ func decodeCompositParams(name string, value string, pattern string, names []str
 }
 
 func (d *defaultRouteBuilder) AddRoute(method, path string, operation *spec.Operation) {
-	mn := strings.ToUpper(method)
+	d.addRoute(method, path, strings.TrimPrefix(path, d.basePath()), operation)
+}
 
+func (d *defaultRouteBuilder) basePath() string {
 	bp := fpath.Clean(d.spec.BasePath())
 	if len(bp) > 0 && bp[len(bp)-1] == '/' {
 		bp = bp[:len(bp)-1]
 	}
+	return bp
+}
+
+// addRoute files the operation under the routed path (base path joined with the operation's path, cleaned).
+//
+// The handler and the parameters are looked up under opPath, the path as spelled in the spec:
+// this is the key handlers are registered with and the analyzer indexes operations by. It cannot
+// be recovered from the routed path when the spelling is not in cleaned form (e.g. "/pets/").
+func (d *defaultRouteBuilder) addRoute(method, path, opPath string, operation *spec.Operation) {
+	mn := strings.ToUpper(method)
+	bp := d.basePath()
 
 	d.debugLogf("operation: %#v", *operation)
-	if handler, ok := d.api.HandlerFor(method, strings.TrimPrefix(path, bp)); ok {
+	if handler, ok := d.api.HandlerFor(method, opPath); ok {
 		consumes := d.analyzer.ConsumesFor(operation)
 		produces := d.analyzer.ProducesFor(operation)
-		parameters := d.analyzer.ParamsFor(method, strings.TrimPrefix(path, bp))
+		parameters := d.analyzer.ParamsFor(method, opPath)
 
 		// add API defaults if not part of the spec
 		if defConsumes := d.api.DefaultConsumes(); defConsumes != "" && !swag.ContainsStringsCI(consumes, defConsumes) {
